@@ -398,6 +398,64 @@ def separate(rng: random.Random, blocks: List[Any]) -> List[Any]:
     return out
 
 
+ADMON_TITLES = {'note': 'Note', 'notes': 'Notes', 'example': 'Example', 'examples': 'Examples', 'references': 'References',
+                'todo': 'Todo', 'warning': 'Warning', 'warnings': 'Warning', 'see also': 'See Also', 'attention': 'Attention',
+                'caution': 'Caution', 'danger': 'Danger', 'error': 'Error', 'hint': 'Hint', 'important': 'Important', 'tip': 'Tip'}
+SEE_NAMES = ['func_a', 'mod.func_b', 'Cls.meth', 'other_thing', 'pkg.mod.f2', 'zeta']
+
+
+def gen_field_more(rng: random.Random, fmt: str) -> List[Any]:
+    """further blocks of a field body: paragraphs, a flat or nested bullet list, a literal block"""
+    more: List[Any] = []
+    for _ in range(rng.randint(1, 2)):
+        r = rng.random()
+        if r < 0.55:
+            more.append(['para', gen_inlines(rng, n=rng.randint(1, 5))])
+        elif r < 0.85:
+            items = []
+            for _ in range(rng.randint(1, 3)):
+                item = [['para', gen_inlines(rng, n=rng.randint(1, 4))]]
+                if rng.random() < 0.25:
+                    item.append(['ulist', [[['para', gen_inlines(rng, n=rng.randint(1, 3))]]]])
+                items.append(item)
+            more.append(['ulist', items])
+        else:
+            more.append(['literal', gen_inlines(rng, rich=False, n=rng.randint(1, 3)), gen_literal(rng).replace('\t', ' ')])
+    return separate(rng, more)
+
+
+def gen_admons(rng: random.Random, fmt: str) -> List[Any]:
+    """the sections / directives the converters special-case: [key, blocks] | ['see also np', entries] | ['methods', entries]"""
+    out: List[Any] = []
+    if fmt == 'epytext':
+        return out
+    keys = list(ADMON_TITLES) if fmt in ('google', 'numpy') else ['note', 'warning', 'see also', 'attention', 'tip', 'custom title']
+    for _ in range(rng.choice([0, 0, 1, 1, 2, 3])):
+        key = rng.choice(keys)
+        if key == 'see also' and fmt == 'numpy':
+            entries = []
+            for _ in range(rng.randint(1, 4)):
+                names = rng.sample(SEE_NAMES, rng.choice([1, 1, 1, 2, 3]))
+                desc: List[List[str]] = []
+                if len(names) == 1 and rng.random() < 0.75:
+                    desc = [gen_words(rng, rng.randint(1, 5), SAFE_WORDS) for _ in range(rng.randint(1, 3))]
+                entries.append([names, desc])
+            out.append(['see also np', entries])
+            continue
+        blocks = [['para', gen_inlines(rng, n=rng.randint(1, 6))]]
+        if key != 'see also':
+            for _ in range(rng.randint(0, 2)):
+                blocks.append(gen_block(rng, 1, ['para', 'ulist', 'literal', 'doctest']))
+        elif rng.random() < 0.5:
+            blocks.append(['para', gen_inlines(rng, n=rng.randint(1, 6))])
+        out.append([key, separate(rng, blocks)])
+    if fmt in ('google', 'numpy') and rng.random() < 0.12:
+        out.append(['methods', [[rng.choice(['run', 'stop', 'reset']), [gen_words(rng, rng.randint(1, 4), SAFE_WORDS)
+                                                                       for _ in range(rng.randint(1, 2))]]
+                                for _ in range(rng.randint(1, 2))]])
+    return out
+
+
 def gen_doc(rng: random.Random, fmt: str) -> Dict[str, Any]:
     obj = rng.choice(['func', 'func', 'func', 'class', 'module'])
     allow = ['para', 'ulist', 'olist', 'literal', 'doctest']
@@ -420,13 +478,20 @@ def gen_doc(rng: random.Random, fmt: str) -> Dict[str, Any]:
         for p in sig:
             if rng.random() < 0.8:
                 fields.append(['param', p, body(), tyw() if rng.random() < 0.5 else None])
+        for k in rng.sample(['verbose', 'timeout', 'mode'], rng.choice([0, 0, 1, 2])):
+            fields.append(['keyword', k, body(), tyw() if rng.random() < 0.4 else None])
         if rng.random() < 0.6:
             fields.append(['return', None, body(), tyw() if rng.random() < 0.5 else None])
-        for _ in range(rng.randint(0, 2)):
-            fields.append(['raises', rng.choice(['ValueError', 'KeyError', 'OSError']), body(), None])
+        if rng.random() < 0.2:
+            fields.append(['yield', None, body(), tyw() if rng.random() < 0.5 else None])
+        for e in rng.sample(['ValueError', 'KeyError', 'OSError'], rng.randint(0, 2)):
+            fields.append(['raises', e, body(), None])
+        for w in rng.sample(['UserWarning', 'DeprecationWarning'], rng.choice([0, 0, 1])):
+            fields.append(['warns', w, body(), None])
     elif obj == 'class':
         for v in rng.sample(['count', 'name', 'items'], rng.randint(0, 3)):
-            fields.append([rng.choice(['ivar', 'cvar']), v, body(), tyw() if rng.random() < 0.4 else None])
+            fields.append([rng.choice(['ivar', 'cvar']) if fmt in ('epytext', 'restructuredtext') else 'ivar', v, body(),
+                           tyw() if rng.random() < 0.4 else None])
     else:
         for v in rng.sample(['LIMIT', 'default'], rng.randint(0, 2)):
             fields.append(['var', v, body(), tyw() if rng.random() < 0.4 else None])
@@ -436,18 +501,70 @@ def gen_doc(rng: random.Random, fmt: str) -> Dict[str, Any]:
         if rng.random() < 0.1:
             fields.append(['custom', None, body(), None])
     for f in fields:
-        more = []
-        if rng.random() < 0.25:
-            more = [gen_inlines(rng, n=rng.randint(1, 5)) for _ in range(rng.randint(1, 2))]
-        f.append(more)
-    return {'obj': obj, 'sig': sig, 'blocks': blocks, 'fields': fields}
+        f.append(gen_field_more(rng, fmt) if rng.random() < 0.3 else [])
+    admons = gen_admons(rng, fmt)
+    cut = rng.randint(0, len(admons))
+    return {'obj': obj, 'sig': sig, 'blocks': blocks, 'fields': fields, 'admons': admons[:cut], 'admons_after': admons[cut:],
+            'rst_style': rng.choice(['plain', 'plain', 'bullet', 'deflist']),
+            'alias': rng.randrange(1 << 16)}
+
+
+def blocks_all_tokens(blocks: List[Any]) -> List[str]:
+    """every word of the blocks in source order, the text of verbatim blocks included"""
+    out: List[str] = []
+    for b in blocks:
+        k = b[0]
+        if k == 'para':
+            out += inline_tokens(b[1])
+        elif k in ('ulist', 'olist'):
+            for item in b[1]:
+                out += blocks_all_tokens(item)
+        elif k == 'literal':
+            t = inline_tokens(b[1])
+            t[-1] = t[-1] + ':'
+            out += t + b[2].split()
+        elif k in ('doctest', 'code'):
+            out += b[1].split()
+        elif k == 'section':
+            out += b[1] + blocks_all_tokens(b[2])
+    return out
 
 
 def field_tokens(f: List[Any]) -> List[str]:
-    out = inline_tokens(f[2])
-    for m in (f[4] if len(f) > 4 else []):
-        out += inline_tokens(m)
-    return out
+    return inline_tokens(f[2]) + blocks_all_tokens(f[4] if len(f) > 4 else [])
+
+
+def admon_expected(admons: List[Any]) -> Tuple[List[str], List[Tuple[str, str]]]:
+    toks: List[str] = []
+    pres: List[Tuple[str, str]] = []
+    for a in admons:
+        if a[0] == 'see also np':
+            toks += ['See', 'Also']
+            for names, desc in a[1]:
+                toks += (', '.join(names)).split()
+                for line in desc:
+                    toks += line
+        elif a[0] == 'methods':
+            toks += ['Methods']
+            for name, desc in a[1]:
+                toks.append(name + '()')
+                for line in desc:
+                    toks += line
+        else:
+            toks += ADMON_TITLES.get(a[0], 'Custom Title').split()
+            t, p = expected(a[1])
+            toks += t
+            pres += p
+    return toks, pres
+
+
+def doc_expected(doc: Dict[str, Any]) -> Tuple[List[str], List[Tuple[str, str]]]:
+    toks, pres = expected(doc['blocks'])
+    for part in (doc.get('admons') or [], doc.get('admons_after') or []):
+        t, p = admon_expected(part)
+        toks += t
+        pres += p
+    return toks, pres
 
 
 def gen_plaintext(rng: random.Random) -> str:
@@ -545,86 +662,178 @@ def ser_blocks(blocks: List[Any], fmt: str, ind: int, width: int) -> List[str]:
 
 
 EPY_TAG = {'param': 'param', 'return': 'return', 'raises': 'raise', 'ivar': 'ivar', 'cvar': 'cvar', 'var': 'var', 'note': 'note',
-           'see': 'see', 'author': 'author', 'since': 'since', 'custom': 'custom'}
+           'see': 'see', 'author': 'author', 'since': 'since', 'custom': 'custom', 'keyword': 'keyword', 'yield': 'yield',
+           'warns': 'warns'}
 RST_TAG = {'param': 'param', 'return': 'returns', 'raises': 'raises', 'ivar': 'ivar', 'cvar': 'cvar', 'var': 'var', 'note': 'note',
-           'see': 'see', 'author': 'author', 'since': 'since', 'custom': 'custom'}
-TYPE_TAG = {'param': 'type', 'return': 'rtype', 'ivar': 'type', 'cvar': 'type', 'var': 'type'}
+           'see': 'see', 'author': 'author', 'since': 'since', 'custom': 'custom', 'keyword': 'keyword', 'yield': 'yields',
+           'warns': 'warns'}
+TYPE_TAG = {'param': 'type', 'return': 'rtype', 'ivar': 'type', 'cvar': 'type', 'var': 'type', 'keyword': 'type', 'yield': 'ytype'}
+CONSOLIDATED = {'param': ['Parameters', 'Arguments'], 'keyword': ['Keywords'], 'raises': ['Exceptions'], 'ivar': ['IVariables'],
+                'cvar': ['CVariables'], 'var': ['Variables']}
+DEFLIST_KINDS = ('param', 'keyword', 'ivar', 'cvar', 'var')
+NAP_HEADERS = {'param': ['Args', 'Arguments', 'Parameters', 'Receives'], 'keyword': ['Keyword Args', 'Keyword Arguments'],
+               'return': ['Returns', 'Return'], 'yield': ['Yields', 'Yield'],
+               'raises': ['Raises', 'Raise', 'Except', 'Exceptions'], 'warns': ['Warns', 'Warn'],
+               'ivar': ['Attributes'], 'cvar': ['Attributes'], 'var': ['Attributes']}
+
+
+def more_of(f: List[Any]) -> List[Any]:
+    return f[4] if len(f) > 4 else []
+
+
+def ser_field_more(f: List[Any], fmt: str, ind: int, width: int) -> List[str]:
+    m = more_of(f)
+    if not m:
+        return []
+    return [''] + ser_blocks(m, fmt, ind, width)
+
+
+def pick(doc: Dict[str, Any], options: List[str], salt: int) -> str:
+    return options[(doc.get('alias', 0) >> salt) % len(options)]
+
+
+def ser_admons(admons: List[Any], fmt: str, width: int) -> List[str]:
+    lines: List[str] = []
+    for a in admons:
+        lines.append('')
+        key = a[0]
+        if fmt == 'restructuredtext':
+            head = {'see also': '.. seealso::', 'custom title': '.. admonition:: Custom Title'}.get(key, '.. %s::' % key)
+            lines.append(head)
+            lines.append('')
+            lines += ser_blocks(a[1], 'restructuredtext', 4, width)
+            continue
+        title = {'see also np': 'See Also', 'methods': 'Methods'}.get(key, ' '.join(w.capitalize() for w in key.split()))
+        if fmt == 'google':
+            lines.append(title + ':')
+            base = 4
+        else:
+            lines.append(title)
+            lines.append('-' * len(title))
+            base = 0
+        pad = ' ' * base
+        if key == 'see also np':
+            for names, desc in a[1]:
+                if desc:
+                    lines.append(pad + names[0] + ' : ' + ' '.join(desc[0]))
+                    for d in desc[1:]:
+                        lines.append(pad + '    ' + ' '.join(d))
+                else:
+                    lines.append(pad + ', '.join(names))
+        elif key == 'methods':
+            for name, desc in a[1]:
+                if fmt == 'google':
+                    lines.append(pad + name + '(): ' + ' '.join(desc[0]))
+                else:
+                    lines.append(pad + name + '()')
+                    lines.append(pad + '    ' + ' '.join(desc[0]))
+                for d in desc[1:]:
+                    lines.append(pad + '    ' + ' '.join(d))
+        else:
+            lines += ser_blocks(a[1], 'restructuredtext', base, width)
+    return lines
 
 
 def serialise(doc: Dict[str, Any], fmt: str, width: int = 68) -> str:
+    fields = doc['fields']
     if fmt == 'epytext':
         lines = ser_blocks(doc['blocks'], fmt, 0, width)
-        if doc['fields']:
+        if fields:
             lines.append('')
-        for kind, name, body, ty, *rest in doc['fields']:
+        for f in fields:
+            kind, name, body, ty = f[:4]
             head = '@' + EPY_TAG[kind] + ((' ' + name) if name else '') + ':'
             lines += wrap(inline_atoms(body, fmt), width, head + ' ', '    ')
-            for m in (rest[0] if rest else []):
-                lines.append('')
-                lines += wrap(inline_atoms(m, fmt), width, '    ', '    ')
+            lines += ser_field_more(f, fmt, 4, width)
             if ty:
-                head = '@' + TYPE_TAG[kind] + ((' ' + name) if (name and kind != 'return') else '') + ':'
+                head = '@' + TYPE_TAG[kind] + ((' ' + name) if (name and kind not in ('return', 'yield')) else '') + ':'
                 lines += wrap(ty, width, head + ' ', '    ')
         return '\n'.join(lines)
     if fmt == 'restructuredtext':
         lines = ser_blocks(doc['blocks'], fmt, 0, width)
-        if doc['fields']:
+        lines += ser_admons(doc.get('admons') or [], fmt, width)
+        style = doc.get('rst_style', 'plain')
+        if fields:
             lines.append('')
-        for kind, name, body, ty, *rest in doc['fields']:
-            head = ':' + RST_TAG[kind] + ((' ' + name) if name else '') + ':'
-            lines += wrap(inline_atoms(body, fmt), width, head + ' ', '    ')
-            for m in (rest[0] if rest else []):
-                lines.append('')
-                lines += wrap(inline_atoms(m, fmt), width, '    ', '    ')
-            if ty:
-                head = ':' + TYPE_TAG[kind] + ((' ' + name) if (name and kind != 'return') else '') + ':'
-                lines += wrap(ty, width, head + ' ', '    ')
+        done: set = set()
+        types_later: List[List[Any]] = []
+        for f in fields:
+            kind, name, body, ty = f[:4]
+            grouped = (style == 'bullet' and kind in CONSOLIDATED) or (style == 'deflist' and kind in DEFLIST_KINDS)
+            if not grouped:
+                head = ':' + RST_TAG[kind] + ((' ' + name) if name else '') + ':'
+                lines += wrap(inline_atoms(body, fmt), width, head + ' ', '    ')
+                lines += ser_field_more(f, fmt, 4, width)
+                if ty:
+                    head = ':' + TYPE_TAG[kind] + ((' ' + name) if (name and kind not in ('return', 'yield')) else '') + ':'
+                    lines += wrap(ty, width, head + ' ', '    ')
+                continue
+            if kind in done:
+                continue
+            done.add(kind)
+            group = [g for g in fields if g[0] == kind]
+            lines.append(':' + pick(doc, CONSOLIDATED[kind], 0) + ':')
+            for k, g in enumerate(group):
+                if style == 'bullet':
+                    if k:
+                        lines.append('')
+                    lines += wrap(inline_atoms(g[2], fmt), width, '    - `%s`: ' % g[1], '      ')
+                    lines += ser_field_more(g, fmt, 6, width)
+                    if g[3]:
+                        types_later.append(g)
+                else:
+                    lines.append('    ' + g[1] + ((' : ' + ' '.join(g[3])) if g[3] else ''))
+                    lines += wrap(inline_atoms(g[2], fmt), width, '        ', '        ')
+                    lines += ser_field_more(g, fmt, 8, width)
+        if types_later:
+            lines.append(':Types:')
+            for k, g in enumerate(types_later):
+                lines.append('    - `%s`: %s' % (g[1], ' '.join(g[3])))
+        lines += ser_admons(doc.get('admons_after') or [], fmt, width)
         return '\n'.join(lines)
     if fmt in ('google', 'numpy'):
         lines = ser_blocks(doc['blocks'], 'restructuredtext', 0, width)
-        groups: Dict[str, List[Any]] = {}
-        for f in doc['fields']:
-            groups.setdefault(f[0], []).append(f)
-        order = [('param', 'Args', 'Parameters'), ('return', 'Returns', 'Returns'), ('raises', 'Raises', 'Raises'),
-                 ('ivar', 'Attributes', 'Attributes'), ('cvar', 'Attributes', 'Attributes'), ('var', 'Attributes', 'Attributes')]
-        done = set()
-        for kind, gname, nname in order:
-            fs = [f for f in doc['fields'] if f[0] == kind] if kind in ('param', 'return', 'raises') else \
-                [f for f in doc['fields'] if f[0] in ('ivar', 'cvar', 'var')]
-            key = gname
-            if not fs or key in done:
+        lines += ser_admons(doc.get('admons') or [], fmt, width)
+        groups = [('param',), ('keyword',), ('return',), ('yield',), ('raises',), ('warns',), ('ivar', 'cvar', 'var')]
+        for gi, kinds in enumerate(groups):
+            fs = [f for f in fields if f[0] in kinds]
+            if not fs:
                 continue
-            done.add(key)
-            lines.append('')
-            if fmt == 'google':
-                lines.append(gname + ':')
-                for kd, name, body, ty, *rest in fs:
-                    atoms = inline_atoms(body, 'restructuredtext')
-                    if kd == 'return':
-                        head = (' '.join(ty) + ': ') if ty else ''
-                    elif kd == 'raises':
-                        head = name + ': '
-                    else:
-                        head = name + ((' (' + ' '.join(ty) + ')') if ty else '') + ': '
-                    lines += wrap(atoms, width, '    ' + head, '        ')
-                    for m in (rest[0] if rest else []):
-                        lines.append('')
-                        lines += wrap(inline_atoms(m, 'restructuredtext'), width, '        ', '        ')
-            else:
-                lines.append(nname)
-                lines.append('-' * len(nname))
-                for kd, name, body, ty, *rest in fs:
-                    atoms = inline_atoms(body, 'restructuredtext')
-                    if kd == 'return':
-                        lines.append(' '.join(ty) if ty else 'object')
-                    elif kd == 'raises':
-                        lines.append(name)
-                    else:
-                        lines.append(name + ((' : ' + ' '.join(ty)) if ty else ''))
-                    lines += wrap(atoms, width, '    ', '    ')
-                    for m in (rest[0] if rest else []):
-                        lines.append('')
-                        lines += wrap(inline_atoms(m, 'restructuredtext'), width, '    ', '    ')
+            parts = [fs]
+            header = pick(doc, NAP_HEADERS[kinds[0]], gi)
+            if kinds == ('param',) and len(fs) >= 2 and (doc.get('alias', 0) & 1):
+                parts = [fs[:-1], fs[-1:]]
+            for pi, part in enumerate(parts):
+                head = header if pi == 0 else 'Other Parameters'
+                lines.append('')
+                if fmt == 'google':
+                    lines.append(head + ':')
+                    for f in part:
+                        kd, name, body, ty = f[:4]
+                        atoms = inline_atoms(body, 'restructuredtext')
+                        if kd in ('return', 'yield'):
+                            h = (' '.join(ty) + ': ') if ty else ''
+                        elif kd in ('raises', 'warns'):
+                            h = name + ': '
+                        else:
+                            h = name + ((' (' + ' '.join(ty) + ')') if ty else '') + ': '
+                        lines += wrap(atoms, width, '    ' + h, '        ')
+                        lines += ser_field_more(f, 'restructuredtext', 8, width)
+                else:
+                    lines.append(head)
+                    lines.append('-' * len(head))
+                    for f in part:
+                        kd, name, body, ty = f[:4]
+                        atoms = inline_atoms(body, 'restructuredtext')
+                        if kd in ('return', 'yield'):
+                            lines.append(' '.join(ty) if ty else 'object')
+                        elif kd in ('raises', 'warns'):
+                            lines.append(name)
+                        else:
+                            lines.append(name + ((' : ' + ' '.join(ty)) if ty else ''))
+                        lines += wrap(atoms, width, '    ', '    ')
+                        lines += ser_field_more(f, 'restructuredtext', 4, width)
+        lines += ser_admons(doc.get('admons_after') or [], fmt, width)
         return '\n'.join(lines)
     raise ValueError(fmt)
 
